@@ -25,7 +25,11 @@ from checks.common import verdict
 ENDPOINT_KEY = {WIRESERVER: "wireserver", HOSTGA: "hostga", IMDS: "imds"}
 FORBIDDEN = "403 Forbidden"
 TARGETS = ["/metadata/instance?api-version=2021-02-01", "/metadata/identity/oauth2/token?resource=x",
-           "/machine?comp=goalstate", "/machine/?comp=telemetrydata", "/vmsettings", "/other/path?a=1&b=2", "/"]
+           "/machine?comp=goalstate", "/machine/?comp=telemetrydata", "/vmsettings", "/other/path?a=1&b=2", "/",
+           # '..' in the QUERY only: not a traversal, judged by the rules like any other request
+           "/metadata/instance?api-version=2021-02-01&range=1..5", "/machine?comp=goalstate&file=..%2fx&v=1..2", "/vmsettings?x=..",
+           # '..' in the PATH: refused with 404 before authorization, nothing recorded
+           "/metadata/../instance?api-version=2021-02-01"]
 
 
 # ------------------------------------------------------------------------------------------------
@@ -224,7 +228,8 @@ def gen_history(rng, idx, pool, concurrent):
                          "rules": cur, "change": None})
         conns.append({"id": ci + 1, "caller": c["name"], "dest": dest, "reqs": reqs, "rules": conn_rules, "change": change, "clear": clear})
     return {"idx": idx, "concurrent": concurrent, "callers": chosen, "rules": rules, "conns": conns,
-            "key": rng.random() < 0.5, "status_task": rng.random() < 0.6}
+            "key": rng.random() < 0.5, "status_task": rng.random() < 0.6,
+            "host_status": rng.choice([200, 200, 200, 403, 403, 401, 500])}
 
 
 def finalize(h):
@@ -278,7 +283,7 @@ def to_scenario(h, pool, reference=False):
             if r.get("big"):
                 kn.update({"gen_body": {"len": BIG_LEN, "seed": 7, "chunk_sizes": [16384]}, "timeout_ms": 60000})
             reqs.append(req(raw, **kn))
-        ops = []
+        ops = list(c.get("ops") or []) if not reference else []
         if c.get("exec_before"):
             ops.append({"op": "helper_exec", "name": EXEC_NAME})
         if not reference:
@@ -297,6 +302,8 @@ def to_scenario(h, pool, reference=False):
                   concurrent=h["concurrent"])
     if any(pool[c["caller"]].get("exec") for c in h["conns"]):
         sc["exec_helpers"] = {EXEC_NAME: EXEC_ARGV}
+    if h.get("host_status", 200) != 200:
+        sc["default_reply"] = {"status": h["host_status"], "reason": {401: "Unauthorized", 403: "Forbidden", 500: "Internal Server Error"}.get(h["host_status"], "Status")}
     if h["status_task"] and not reference:
         sc["status_task_ms"] = 4
     return sc
@@ -312,6 +319,8 @@ def claims_py(who, exe):
 def expect_request(h, c, r, who, exe):
     """(status, relayed, recorded) the property demands for this request"""
     st, relayed, recorded = expect_decision(h, c, r, who, exe)
+    if relayed:
+        st = h.get("host_status", 200)     # what the host answers is passed through; it never makes or unmakes a denial
     if r.get("big") and relayed:
         # the relay fails AFTER the decision (the chunked body exceeds the limit while it is being received): the client
         # gets 400 and nothing reaches the host (C15) -- but a denial stays a denial: recorded once all the same
@@ -321,6 +330,8 @@ def expect_request(h, c, r, who, exe):
 
 def expect_decision(h, c, r, who, exe):
     dest = c["dest"]
+    if ".." in G.split_url(r["target"])[0]:
+        return 404, False, False           # traversal characters in the PATH: refused before authorization (C01)
     if dest == OTHER:
         return 200, True, False
     if dest == SELF:
@@ -406,8 +417,31 @@ def canon_upstream(m):
     return (m["start_line"], tuple(hs), m["body"])
 
 
+def conservation_check(h, r):
+    """burst legs of the runner's summary_burst op: every denial handed to the summary is counted, however many callers
+    hand theirs in at the same instant for a key that is not there yet"""
+    for sn in r.get("snapshots", []):
+        b = sn.get("burst")
+        if not b:
+            continue
+        for name, entries in (("get_all_failed_connection_summary()", (sn.get("summary") or {}).get("failed")),
+                              ("status.json failedAuthenticateSummary", (sn.get("status_json") or {}).get("failed"))):
+            if entries is None or isinstance(entries, dict):
+                continue
+            mine = [e for e in entries if str(e.get("userName", "")).startswith("burst-%s-" % sn["label"])]
+            total = sum(e["count"] for e in mine)
+            if total != b["adds"] or len(mine) != b["keys"]:
+                short = sorted((e["userName"], e["count"]) for e in mine if e["count"] != b["threads"])[:5]
+                return {"why": "%d denials of %d never-seen callers (%d at the same instant each) were handed to the failed-authorization "
+                               "summary; %s shows %d occurrences in %d entries, e.g. %r" % (
+                                   b["adds"], b["keys"], b["threads"], name, total, len(mine), short)}
+    return None
+
+
 def property_check(h, r, ref, pool, sep_byte):
     """Evaluate the property on the observed behaviour.  Returns None or a failure dict (why, class)."""
+    if h.get("race"):
+        return conservation_check(h, r)
     up = upstream_index(r)
     up_ref = upstream_index(ref) if ref is not None else None
     byid = {c.get("id"): c for c in r["connections"]}
@@ -537,6 +571,8 @@ def model_entries(raw):
 def impl_entries(entries):
     out = {}
     for e in entries:
+        if str(e.get("userName", "")).startswith("burst-"):
+            continue            # the runner's summary_burst op: judged by conservation_check
         out[entry_tuple(e)] = (e["count"], sorted(e.get("userGroups") or []))
     return out
 
@@ -621,7 +657,19 @@ def run(ctx):
                               {"id": 4, "caller": "root-helper", "dest": WIRESERVER, "rules": imds("enforce"), "reqs": [dict(bigp)]},
                               {"id": 5, "caller": "nobody-helper", "dest": WIRESERVER, "rules": imds("enforce"), "reqs": [dict(bigp)]}],
                      rules=imds("audit"))
-        hs = [finalize(h) for h in [f8, longs, flips, burst_e, burst_a, crowd, execs, bigs] + hs]
+        host403 = fixed(990009, [{"id": 1, "caller": "root-helper", "dest": IMDS, "reqs": [get0] * 3},
+                                 {"id": 2, "caller": "root-helper", "dest": WIRESERVER, "reqs": [get0] * 2},
+                                 {"id": 3, "caller": "root-self", "dest": OTHER, "reqs": [get0]}], rules=imds("audit"), host_status=403)
+        dotq = {"method": "GET", "target": TARGETS[7], "body": b""}
+        dots = fixed(990010, [{"id": 1, "caller": "root-helper", "dest": IMDS, "rules": imds("enforce"), "reqs": [dict(dotq), dict(dotq, target=TARGETS[9]), get0]},
+                              {"id": 2, "caller": "root-helper", "dest": IMDS, "reqs": [dict(dotq, rules=imds("audit"), change="imds"), dict(dotq, target=TARGETS[10], rules=imds("audit"))]}],
+                     rules=imds("enforce"))
+        # conservation under simultaneous FIRST denials of never-seen callers (8 OS threads x 250 fresh keys, twice, with a
+        # clear in between), on the real actor and the real status task
+        race = fixed(990011, [{"id": 1, "caller": "root-helper", "dest": OTHER, "reqs": [get0],
+                               "ops": [{"op": "summary_burst", "label": "a", "threads": 8, "keys": 250}, {"op": "clear_summary"},
+                                       {"op": "summary_burst", "label": "b", "threads": 16, "keys": 150}]}], race=True)
+        hs = [finalize(h) for h in [f8, longs, flips, burst_e, burst_a, crowd, execs, bigs, host403, dots, race] + hs]
 
         def run_batch(batch, env=None, shards=None):
             scs, refmap = [], {}
@@ -714,7 +762,7 @@ def run(ctx):
                 resp = byid.get(c["id"], {}).get("responses", [])
                 got = resp[j].get("status") if j < len(resp) else None
                 relayed_m = oc[0] == 2
-                want = 200 if relayed_m else oc[1]
+                want = h.get("host_status", 200) if relayed_m else oc[1]
                 if relayed_m and c["reqs"][j].get("big"):
                     relayed_m, want = False, 400          # [handle] enters the forward step; the body limit (C15) ends it
                 seen = up.get(marker(h, c, j), [])
